@@ -1,6 +1,7 @@
 (* C02: generated deserializers decode every byte string as the specification prescribes.
    Statements only; proofs in Spec/WireThm*.v and Codec/Refine.v. *)
 From Verif Require Import Wire WireThm WireThmRt WireThmExt WireThmValid Walker Refine.
+Local Open Scope nat_scope.
 
 (* the reported number of consumed bytes never exceeds the number supplied *)
 Theorem c02_consumed_le_supplied : forall t bs v c, des_spec t bs = Ok (v, c) -> 8 * c <= length bs.
